@@ -14,10 +14,10 @@ import (
 
 type c12Tamper struct {
 	Obj  string `json:"obj"`
-	Kind string `json:"kind"`           // delete flip trunc append subst stale swap swapfix
-	Pos  int    `json:"pos,omitempty"`  // flip: byte offset; trunc: new length; swap: first entry (offset in tile)
+	Kind string `json:"kind"`           // delete flip trunc append subst stale swap swapfix setidx stripidx splicefrom
+	Pos  int    `json:"pos,omitempty"`  // flip: byte offset; trunc: new length; swap/setidx/stripidx/splicefrom: (first) entry, as offset in the tile
 	Mask int    `json:"mask,omitempty"` // flip: xor mask; append: appended byte
-	B    int    `json:"b,omitempty"`    // swap: second entry; stale: width of the served tile
+	B    int    `json:"b,omitempty"`    // swap: second entry; stale: width of the served tile; setidx: the leaf_index written
 	Src  string `json:"src,omitempty"`  // subst: path (same log) whose pristine body is served instead
 }
 
@@ -36,11 +36,11 @@ type c12Case struct {
 
 var c12Sizes = []int{1, 2, 255, 256, 257, 513}
 var c12EvilLogs = []string{"4/evil2=3", "258/evil256=257"}
-var c12ArchLogs = []string{"5/arch3"}
+var c12ArchLogs = []string{"5/arch3", "4/arch0+1+2+3", "6/arch0+3"}
 
 // c12AllowLogs are also driven through the client with AllowRFC6962ArchivalLeafs
 // set (pristine and SCT families; tile families for those of <= 8 leaves).
-var c12AllowLogs = []string{"2", "4/evil2=3", "5/arch3", "258/evil256=257"}
+var c12AllowLogs = []string{"2", "4/evil2=3", "5/arch3", "4/arch0+1+2+3", "6/arch0+3", "258/evil256=257"}
 
 func (w *c12World) logByID(id string) *c12Log {
 	n := 0
@@ -59,6 +59,13 @@ func (w *c12World) logByID(id string) *c12Log {
 // the middle of the last full tile when there is more than one tile).
 func (l *c12Log) starts() []int64 {
 	n := int64(l.n)
+	if n <= 8 { // small logs: every start offset
+		var out []int64
+		for s := int64(0); s < n; s++ {
+			out = append(out, s)
+		}
+		return out
+	}
 	cand := []int64{0, min(n, 256) / 2, 256, 384, n / 256 * 256, n - 1}
 	var out []int64
 	for _, s := range cand {
@@ -114,6 +121,8 @@ func (l *c12Log) targets(t c12Tamper) []int {
 		out = []int{i, i + 1}
 	case tc.Kind == "data" && (t.Kind == "swap" || t.Kind == "swapfix"):
 		out = []int{first + t.Pos, first + t.B}
+	case tc.Kind == "data" && (t.Kind == "setidx" || t.Kind == "stripidx" || t.Kind == "splicefrom"):
+		out = []int{first + t.Pos, first + t.Pos + 1}
 	case tc.Kind == "data":
 		out = []int{first, last}
 	case tc.Kind == "hash" && t.Kind == "flip":
@@ -172,6 +181,27 @@ func (l *c12Log) apply(t c12Tamper) []byte {
 		es[t.Pos], es[t.B] = es[t.B], es[t.Pos]
 		if t.Kind == "swapfix" { // relabel so that the leaf_index fields look right
 			es[t.Pos].Index, es[t.B].Index = es[t.B].Index, es[t.Pos].Index
+		}
+		var out []byte
+		for i := range es {
+			out = append(out, c12TileLeaf(&es[i])...)
+		}
+		return out
+	case "setidx", "stripidx", "splicefrom":
+		// re-encode the tile with the leaf_index extension of some leaves rewritten: setidx writes
+		// leaf_index B into entry Pos (splicing an extension into an archival leaf), stripidx removes
+		// the extension of entry Pos, splicefrom gives every entry >= Pos its own position as leaf_index.
+		tc, _ := verifmc.ParseTilePathRef(t.Obj)
+		es := append([]verifmc.RefEntry{}, l.entries[int(tc.N)*256:int(tc.N)*256+tc.W]...)
+		switch t.Kind {
+		case "setidx":
+			es[t.Pos].Index = int64(t.B)
+		case "stripidx":
+			es[t.Pos].Index = -1
+		default:
+			for i := t.Pos; i < len(es); i++ {
+				es[i].Index = int64(int(tc.N)*256 + i)
+			}
 		}
 		var out []byte
 		for i := range es {
@@ -391,6 +421,20 @@ func c12Enumerate(w *c12World, pl c12Plan, emit func(*c12Case) bool) {
 					if _, ok := c12TileContent(w.entries, w.leafHashes, probe); ok {
 						one(c12Tamper{Obj: p, Kind: "stale", B: sw})
 					}
+				}
+			}
+			if tc.Kind == "data" && l.archival {
+				for a := 0; a < tc.W; a++ {
+					own := int(tc.N)*256 + a
+					for _, v := range []int{own, 0, own + 1, 0xc0ffee} {
+						if int64(v) != l.entries[own].Index {
+							one(c12Tamper{Obj: p, Kind: "setidx", Pos: a, B: v})
+						}
+					}
+					if !c12IsArchival(&l.entries[own]) {
+						one(c12Tamper{Obj: p, Kind: "stripidx", Pos: a})
+					}
+					one(c12Tamper{Obj: p, Kind: "splicefrom", Pos: a})
 				}
 			}
 			if tc.Kind == "data" && tc.W > 1 {
